@@ -249,7 +249,7 @@ def _payload(i, a, fault):
     return d
 
 
-def _bunch_undirected(fmt, items, mtype, fault=None, share=False):
+def _bunch_undirected(fmt, items, mtype, fault=None, share=False, view_item=None, view_which="view_nodes"):
     """items: [(members(list), idx, eattr)] -> python bunch in xgi's format `fmt`.
     share: consecutive items with equal content are handed the *same* container / dict object (a
     caller that builds its bunch from one object, e.g. dict.fromkeys(ids, members))."""
@@ -271,6 +271,8 @@ def _bunch_undirected(fmt, items, mtype, fault=None, share=False):
     def _cont(i, mem):
         mem = list(mem)
         mt = mtype
+        if view_item is not None and i == view_item and i >= 1:
+            return container(mem, view_which)
         if i == 0 and fmt == 1:
             mem = _order_for_sniff(mem)
             if mt in ("set", "frozenset") and not (
@@ -336,6 +338,7 @@ def build(kind, op, a, fault):
     """Returns (call, model_op, model_args, info)."""
     info = {"relaxed": False, "oserror": False, "named": set()}
     fk = (fault or {}).get("kind")
+    POS = bool(a.get("positional"))  # optional parameters passed by position, in the documented order
     if fk == "exotic_id":
         x = EXOTIC_IDS[fault.get("pos", 0) % len(EXOTIC_IDS)]
         if op in ("add_edge", "add_simplex", "alias_add_edge") and a.get("idx") is not None:
@@ -387,6 +390,9 @@ def build(kind, op, a, fault):
         named(a["n"])
         if kind == "SC":
             return (lambda s: s.remove_node(a["n"])), op, {"n": a["n"]}, info
+        if POS:
+            return ((lambda s: s.remove_node(a["n"], a["strong"], a["remove_empty"])),
+                    op, {"n": a["n"], "strong": a["strong"], "remove_empty": a["remove_empty"]}, info)
         return ((lambda s: s.remove_node(a["n"], strong=a["strong"], remove_empty=a["remove_empty"])),
                 op, {"n": a["n"], "strong": a["strong"], "remove_empty": a["remove_empty"]}, info)
     if op == "remove_nodes_from":
@@ -398,6 +404,9 @@ def build(kind, op, a, fault):
         st = _stream(nodes, fault, a.get("stream"))
         if kind == "SC":
             return (lambda s: s.remove_nodes_from(st)), op, {"nodes": mnodes}, info
+        if POS:
+            return ((lambda s: s.remove_nodes_from(st, a["strong"], a["remove_empty"])),
+                    op, {"nodes": mnodes, "strong": a["strong"], "remove_empty": a["remove_empty"]}, info)
         return ((lambda s: s.remove_nodes_from(st, strong=a["strong"], remove_empty=a["remove_empty"])),
                 op, {"nodes": mnodes, "strong": a["strong"], "remove_empty": a["remove_empty"]}, info)
     if op == "set_node_attributes" or op == "set_edge_attributes":
@@ -440,12 +449,16 @@ def build(kind, op, a, fault):
             if op == "add_edge":
                 if idx is None:
                     call = lambda s: s.add_edge(c, **attr)
+                elif POS:
+                    call = lambda s: s.add_edge(c, idx, **attr)
                 else:
                     call = lambda s: s.add_edge(c, idx=idx, **attr)
                 return call, op, {"members": mem, "idx": idx, "attr": attr}, info
             if op == "add_simplex":
                 if idx is None:
                     call = lambda s: s.add_simplex(c, **attr)
+                elif POS:
+                    call = lambda s: s.add_simplex(c, idx, **attr)
                 else:
                     call = lambda s: s.add_simplex(c, idx=idx, **attr)
                 return call, op, {"members": mem, "idx": idx, "attr": attr}, info
@@ -465,7 +478,9 @@ def build(kind, op, a, fault):
                     info["relaxed"] = False
                 else:
                     fault = dict(fault, item=1 + fault.get("item", 0) % (len(items) - 1))
-            bunch = _bunch_undirected(fmt, items, a.get("mtype", "list"), fault, share=bool(a.get("share")))
+            bunch = _bunch_undirected(fmt, items, a.get("mtype", "list"), fault, share=bool(a.get("share")),
+                                      view_item=a.get("view_item") if fmt != 5 else None,
+                                      view_which=a.get("view_which", "view_nodes"))
             mitems, dying = _dying_prefix(items, fault)
             if fault and fault.get("kind") == "attr_junk":
                 # the junk payload must be rejected: items before it are applied (relaxed judge)
@@ -482,6 +497,9 @@ def build(kind, op, a, fault):
                 return (lambda s: s.add_edges_from(st, **attr)), op, {"fmt": fmt, "items": mitems, "attr": attr}, info
             if op == "add_simplices_from":
                 mo = a.get("max_order")
+                if POS:
+                    return ((lambda s: s.add_simplices_from(st, mo, **attr)), op,
+                            {"fmt": fmt, "items": mitems, "attr": attr, "max_order": mo}, info)
                 return ((lambda s: s.add_simplices_from(st, max_order=mo, **attr)), op,
                         {"fmt": fmt, "items": mitems, "attr": attr, "max_order": mo}, info)
             return (lambda s: s.add_edges_from(st, **attr)), op, {"fmt": fmt, "items": mitems, "attr": attr}, info
@@ -496,10 +514,16 @@ def build(kind, op, a, fault):
                 named(*m)
             st = _stream(py, fault, a.get("stream"))
             if op == "add_weighted_edges_from":
+                if POS:
+                    return ((lambda s: s.add_weighted_edges_from(st, weight, **attr)), op,
+                            {"items": mitems, "weight": weight, "attr": attr}, info)
                 return ((lambda s: s.add_weighted_edges_from(st, weight=weight, **attr)), op,
                         {"items": mitems, "weight": weight, "attr": attr}, info)
             mo = a.get("max_order")
             if op == "add_weighted_simplices_from":
+                if POS:
+                    return ((lambda s: s.add_weighted_simplices_from(st, mo, weight, **attr)), op,
+                            {"items": mitems, "weight": weight, "attr": attr, "max_order": mo}, info)
                 return ((lambda s: s.add_weighted_simplices_from(st, max_order=mo, weight=weight, **attr)), op,
                         {"items": mitems, "weight": weight, "attr": attr, "max_order": mo}, info)
             return ((lambda s: s.add_weighted_edges_from(st, max_order=mo, weight=weight, **attr)), op,
@@ -553,6 +577,9 @@ def build(kind, op, a, fault):
                 kw = {k: a[k] for k in ("isolates", "singletons", "multiedges", "connected", "relabel")}
             else:
                 kw = {k: a[k] for k in ("isolates", "connected", "relabel")}
+            if POS:
+                vals = list(kw.values())
+                return (lambda s: s.cleanup(*vals, True)), op, kw, info
             return (lambda s: s.cleanup(in_place=True, **kw)), op, kw, info
 
     # ------------------------------------------------------------ directed
@@ -565,7 +592,8 @@ def build(kind, op, a, fault):
             idx, attr = a.get("idx"), _attr(a.get("attr"))
             named(idx, *tail, *head)
             mt = a.get("mtype", "list")
-            mem = (container(tail, mt), container(head, mt))
+            mem = (container(tail, "view_nodes" if a.get("view_side") == "tail" else mt),
+                   container(head, "view_nodes" if a.get("view_side") == "head" else mt))
             if a.get("outer", "tuple") == "list":
                 mem = list(mem)
             if idx is None:
@@ -602,9 +630,12 @@ def build(kind, op, a, fault):
 
             dcache = {}
 
-            def mk(i, t, h):
+            def mk(i, t, h, j=None):
+                j = i if j is None else j
                 m = mt if i > 0 else ("list" if mt == "iter" else mt)
                 ct, ch = container(t, m), container(h, m)
+                if a.get("view_item") is not None and (j == a["view_item"] and (j >= 1 or fmt == 5)):
+                    ch = container(h, "view_nodes")  # the head is the network's own node view
                 if a.get("share") and i >= 1 and m != "iter":
                     # equal tails / heads of later items are the *same* object
                     ct = dcache.setdefault((m, repr(t)), ct)
@@ -620,7 +651,7 @@ def build(kind, op, a, fault):
             elif fmt == 4:
                 bunch = [(mk(i, t, h), idx, _payload(i, d, pf)) for i, ((t, h), idx, d) in enumerate(items)]
             else:
-                bunch = {idx: mk(1, t, h) for ((t, h), idx, _) in items}
+                bunch = {idx: mk(1, t, h, j) for j, ((t, h), idx, _) in enumerate(items)}
             attr = _attr(a.get("attr"))
             mitems, dying = _dying_prefix(items, fault)
             if fmt == 5:
@@ -839,6 +870,8 @@ def exec_mutation(world, actor, rec):
         _r.seed(rec["uid"] * 7919 + 13)
 
     exc = None
+    from . import streams as _streams
+    _streams.CURRENT["sut"] = actor.sut
     with warnings.catch_warnings(record=True) as wl:
         warnings.simplefilter("always")
         recorder = ArgRecorder(actor.sut) if op not in NOT_METHOD_OPS else None
@@ -1263,6 +1296,14 @@ def judge_frozen(world, actor, rec, pre, post, exc, mop, margs):
     would_change = before != after
     changed = structure_of(pre) != structure_of(post)
     ok = True
+    if not changed and (pre["nattr"] != post["nattr"] or pre["eattr"] != post["eattr"] or pre["net"] != post["net"]):
+        # "leaves the network unchanged": a structural mutator that is rejected must not have
+        # written attributes on its way to the error either
+        what = [k for k in ("nattr", "eattr", "net") if pre[k] != post[k]]
+        world.find({"C18"}, "frozen_network_attributes_modified", rec, kind,
+                   f"{rec['op']} ({'returned' if exc is None else 'raised ' + type(exc).__name__}) changed {what} of a "
+                   f"frozen network: " + "; ".join(f"{k}: {pre[k]!r} -> {post[k]!r}" for k in what)[:500])
+        ok = False
     if changed:
         world.find({"C18"}, "frozen_network_modified", rec, kind,
                    f"{rec['op']} changed the structure of a frozen network "
